@@ -2,7 +2,9 @@ use crate::{
     emulator::Emulator,
     error::{SnapshotLoadError, SnapshotSaveError},
     host::{DataRecorder, Host, LoadableAsset, SeekFrom, SeekableAsset},
-    zx::{joy::kempston, mouse::kempston::KempstonMouse, video::colors::ZXColor},
+    zx::{
+        joy::kempston, machine::ZXMachine, mouse::kempston::KempstonMouse, video::colors::ZXColor,
+    },
     Result,
 };
 
@@ -339,6 +341,10 @@ where
 
     let machine_id = header[6] as u32;
     if machine_id > ZXST_MID_128K {
+        return Err(SnapshotLoadError::MachineNotSupported.into());
+    }
+    // Memory layout of the file must match the emulated machine
+    if (machine_id == ZXST_MID_128K) != (emulator.settings.machine == ZXMachine::Sinclair128K) {
         return Err(SnapshotLoadError::MachineNotSupported.into());
     }
 
